@@ -208,8 +208,7 @@ Proof.
       destruct (Nat.eq_dec (owner (n st) k) o) as [Heo|Heo].
       * rewrite Heo, upd_same. rewrite papp_entry.
         destruct (Nat.eq_dec (runner_of (n st) s) r) as [Her|Her].
-        -- rewrite Her, upd2_same, Hc. rewrite <- app_assoc. f_equal.
-           unfold in_chan; cbn. fold (hit s k s0 rc). reflexivity.
+        -- rewrite Her, upd2_same, Hc. rewrite <- app_assoc. reflexivity.
         -- rewrite upd2_other by (intros [? ?]; contradiction).
            assert (Hh : hit s k s0 rc = []).
            { unfold hit. destruct (Nat.eqb_spec s0 s); [subst; contradiction|reflexivity]. }
@@ -329,18 +328,21 @@ Proof.
     apply restart_inv. exact Hp.
 Qed.
 
+Lemma run_inv_no_ack : forall sched, Forall no_ack sched -> forall st, Inv st -> Inv (runS st sched).
+Proof.
+  induction sched as [|a sched IH]; intros Hna st H; cbn; [exact H|].
+  inversion Hna as [|? ? Ha Hrest]; subst.
+  apply IH; [exact Hrest|]. apply step_inv_no_ack; assumption.
+Qed.
+
 Theorem exactly_once_before_first_publication : forall m sched s k, s < nspl ->
   Forall no_ack sched ->
   let st := runS (init m) sched in
   drained splits st -> papp st s k = sub k (splitl s).
 Proof.
   intros m sched s k Hs Hna st [Hpos Hch].
-  assert (HI : Inv st).
-  { subst st. generalize (init_inv m). generalize (init m).
-    induction Hna as [|a sched Ha _ IH]; intros st0 H0; cbn; [exact H0|].
-    apply IH. apply step_inv_no_ack; assumption. }
-  destruct HI as [Hd _].
-  specialize (Hd s k Hs). rewrite Hch in Hd. cbn in Hd. rewrite app_nil_r in Hd.
+  destruct (run_inv_no_ack sched Hna (init m) (init_inv m)) as [Hd _].
+  specialize (Hd s k Hs). fold st in Hd. rewrite Hch in Hd. cbn in Hd. rewrite app_nil_r in Hd.
   rewrite Hd, (Hpos s Hs), firstn_all. reflexivity.
 Qed.
 
